@@ -323,7 +323,6 @@ func runC15(c *Ctx) {
 	}
 }
 
-
 func c15Extra(c *Ctx) {
 	jitPkg := "pkg/jit"
 	c.rule("C15-R10", "TYPESTATE/IMMUT: (a) an invalidated specialisation is never made valid again while it still holds the code compiled before the invalidation: IsValid=true is stored only into a specialisation allocated in that function, or together with a new Bytecode for the same object; (b) bytecode that has been stored in a cache entry is immutable: no append onto / copy into / element store through a slice loaded from CompilationUnit.Bytecode or TypeSpecialization.Bytecode - callers and running VMs hold those bytes")
